@@ -109,7 +109,9 @@ func vfC20Gen(rt *rapid.T) vfC20Case {
 	case 0:
 		c.K = rapid.SampledFrom([]int{math.MaxInt32, math.MaxInt64, math.MinInt64, 1 << 40, -(1 << 40)}).Draw(rt, "k_extreme")
 	case 1:
-		c.MaxIter = rapid.SampledFrom([]int{math.MaxInt32, math.MaxInt64, math.MinInt64, 1 << 40}).Draw(rt, "max_iter_extreme")
+		// (huge positive iteration limits are not generated: a run that has not converged - float32
+		// k-means can cycle - would legitimately use them up)
+		c.MaxIter = rapid.SampledFrom([]int{math.MinInt64, math.MinInt32, -(1 << 40), 1000}).Draw(rt, "max_iter_extreme")
 	}
 
 	c.IndexKind = rapid.SampledFrom([]string{"ivf", "pq", "ivfpq"}).Draw(rt, "index_kind")
